@@ -37,6 +37,8 @@ func c15(c *evid.Ctx) {
 	lap("decoders")
 	c15nodesFile(c)
 	lap("nodesfile")
+	c15pipeline(c)
+	lap("pipeline")
 }
 
 // ---- generated messages ----
